@@ -2,6 +2,8 @@
   Props/C08 — the stream parser's memory and I/O are bounded by the stream, not by header claims.
 -/
 import ElfVerif.Lemmas.Stream
+import ElfVerif.Lemmas.StreamTotal
+import ElfVerif.Lemmas.ReaderInv
 namespace Elf.C08
 
 /-- Every buffer allocation recorded in the trace is at most the stream length. -/
@@ -132,5 +134,62 @@ theorem shdrs0_guarded (s : ElfStream) : (s.sectionHeadersWithStrtab).1 ≠ .pan
       split
       · rw [hs0]; exact strtabAt_total s _
       · exact strtabAt_total s _
+
+/-! ## The whole stream parser: never panics, bounded buffers, lazy reads -/
+
+/-- **`open_stream` never panics**, on any contents under any reader schedule. -/
+theorem open_never_panics (sp : Spec) (dev : Device) : (openStream sp dev).1 ≠ .panic :=
+  openStream_ne_panic sp dev
+
+/-- **No query panics**, in any parser state (any cache contents, any schedule): the `expect` in
+    `get_bytes` is always preceded by successful loads of the same keys, `shdrs[0]` is reached only
+    with a non-empty `Vec`, the arithmetic is checked. -/
+theorem queries_never_panic (s : ElfStream) :
+    (∀ sh, (s.sectionData sh).1 ≠ .panic) ∧ (∀ sh, (s.sectionDataAsStrtab sh).1 ≠ .panic) ∧
+    (∀ sh, (s.sectionDataAsRels sh).1 ≠ .panic) ∧ (∀ sh, (s.sectionDataAsRelas sh).1 ≠ .panic) ∧
+    (∀ sh, (s.sectionDataAsNotes sh).1 ≠ .panic) ∧ (∀ ph, (s.segmentDataAsNotes ph).1 ≠ .panic) ∧
+    s.sectionHeadersWithStrtab.1 ≠ .panic ∧ (∀ name, (s.sectionHeaderByName name).1 ≠ .panic) ∧
+    s.symbolTable.1 ≠ .panic ∧ s.dynamicSymbolTable.1 ≠ .panic ∧ s.dynamic.1 ≠ .panic ∧
+    s.symbolVersionTable.1 ≠ .panic :=
+  ⟨sectionData_ne_panic s, sectionDataAsStrtab_ne_panic s, sectionDataAsRels_ne_panic s,
+   sectionDataAsRelas_ne_panic s, sectionDataAsNotes_ne_panic s, segmentDataAsNotes_ne_panic s,
+   shstrtab_ne_panic s, byName_ne_panic s, symbolTableOfType_ne_panic s _, symbolTableOfType_ne_panic s _,
+   dynamic_ne_panic s, symbolVersionTable_ne_panic s⟩
+
+/-- **Every read buffer the parser ever allocates is at most the stream's length** — after
+    `open_stream` and after any history of queries, under any schedule, whatever sizes the headers
+    claim (the model records one `alloc` event per `vec![0; len]` of `load_bytes`). -/
+theorem allocs_bounded_after_open (sp : Spec) (dev : Device) (hclean : ∀ n, IoEvent.alloc n ∉ dev.trace)
+    (s : ElfStream) (d : Device) (h : openStream sp dev = (.ok s, d)) : AllocOK s.reader := by
+  refine openStream_pinv (P := AllocOK) alloc_bounded sp dev ?_ ?_ s d h
+  · intro cr d' hn
+    unfold CachingReader.new at hn
+    generalize hq : dev.seekEnd = q at hn
+    obtain ⟨q1, d1⟩ := q
+    cases q1 with
+    | panic => simp at hn
+    | err e => simp at hn
+    | ok n =>
+      simp at hn
+      obtain ⟨rfl, _⟩ := hn
+      unfold Device.seekEnd at hq
+      generalize hf : dev.nextFault = nf at hq
+      obtain ⟨f, d2⟩ := nf
+      have ht := nextFault_trace dev f d2 hf
+      intro m hm
+      exfalso
+      cases f <;> simp at hq <;> (obtain ⟨_, rfl⟩ := hq; simp [ht] at hm; exact hclean m hm)
+  · intro r hr; exact hr
+
+theorem allocs_bounded_history (qs : List Query) (s : ElfStream) (h : AllocOK s.reader) :
+    AllocOK (qs.foldl (fun s q => q.after s) s).reader :=
+  history_pinv (P := AllocOK) alloc_bounded qs s h
+
+/-- **Lazy reads**: a `load_bytes(s, e)` leaves the stream position untouched or inside `[s, e]` —
+    the bytes it consumes from the stream are bytes of its own range, under any schedule. -/
+theorem load_reads_only_its_range (r : CachingReader) (s e : Nat) (hse : s ≤ e) :
+    (r.loadBytes s e).2.dev.pos = r.dev.pos ∨
+    (s ≤ (r.loadBytes s e).2.dev.pos ∧ (r.loadBytes s e).2.dev.pos ≤ e) :=
+  loadBytes_extent r s e hse
 
 end Elf.C08
